@@ -10,7 +10,8 @@ env = dict(os.environ, GOFLAGS="-mod=mod", GOPROXY="off", GOSUMDB="off", GOTOOLC
 # schedule was shifted by a later change of the same function) are not listed: they
 # still replay clean on HEAD, but reverting one fix no longer brings the violation back.
 # (511ee29's two C04 tapes were validated until 8c57a91 rewrote the same function, 0ae2d62's
-# C18 tape until 7c952f8 did.)
+# C18 tape until 7c952f8 did; the tapes of 8c57a91, 1ff4d72 and 937fc09 until 1790497 added a
+# lock to every state report.)
 TABLE = [
  ("regress/C05/zombie-connection-after-shutdown.json", "de0edc7"),
  ("regress/C17/resolved-during-start-not-reported.json", "fef7e2e"),
@@ -18,10 +19,7 @@ TABLE = [
  ("regress/C05/dead-connection-registered-4fdf982.json", "4fdf982"),
  ("regress/C10/cancel-in-init-phase-7f3aedc.json", "7f3aedc"),
  ("regress/C05/stale-attempt-after-graceful-close-7248753.json", "7248753"),
- ("regress/C10/trust-after-unregister-inflight-report-8c57a91.json", "8c57a91"),
  ("regress/C18/direct-state-overwritten-before-notified.json", "7c952f8"),
- ("regress/C10/trusted-after-unregister-connection-ended-by-itself-1ff4d72.json", "1ff4d72"),
- ("regress/C05/replaced-double-connection-set-up-last.json", "937fc09"),
  ("regress/C18/loser-reports-between-close-and-close-reported.json", "1790497"),
 ]
 pairs = TABLE
